@@ -557,6 +557,13 @@ func autoServer(w *world, stop chan struct{}, rng *rand.Rand, killAfter int) {
 		}
 		tag := strings.SplitN(line, " ", 2)[0]
 		if strings.HasSuffix(strings.TrimRight(line, "\r\n"), "}") && !strings.Contains(line, "+}") {
+			// a synchronising literal: accept it, or (one time in three) refuse it with a tagged NO
+			// instead of the continuation request - the client must not send the octets then
+			if rng.Intn(3) == 0 {
+				n++
+				w.srv.Write([]byte(tag + " NO literal refused\r\n"))
+				continue
+			}
 			w.srv.Write([]byte("+ go\r\n"))
 			w.br.ReadString('\n')
 		}
@@ -615,7 +622,17 @@ func cmdStress(path string, seed int64, rounds int) {
 					done := make(chan struct{})
 					go func() {
 						defer close(done)
-						switch lr.Intn(5) {
+						switch lr.Intn(7) {
+						case 5:
+							// literal-bearing, streaming its octets: encMutex is held from the command line
+							// until the literal has been written or refused
+							cmd := w.cl.Append("m", 5, nil)
+							cmd.Write([]byte("hello"))
+							cmd.Close()
+							cmd.Wait()
+						case 6:
+							// literal-bearing string argument (8-bit: cannot be quoted)
+							w.cl.Search(&imap.SearchCriteria{Body: []string{"h\u00e9llo"}}, nil).Wait()
 						case 0:
 							w.cl.Noop().Wait()
 						case 1:
